@@ -6,6 +6,7 @@ import (
 	"math/big"
 	"os"
 	"regexp"
+	"runtime/debug"
 	"strings"
 
 	"golang.org/x/tools/go/ssa"
@@ -208,7 +209,15 @@ func (c *Ctx) decide(conds []*Term, pos token.Pos) int {
 				default:
 					known[i] = 1 // unknown => keep the side (DESIGN 2.1)
 					nUnknown++
-					c.notes = append(c.notes, "feasibility unknown at "+c.posStr(pos))
+					where := c.posStr(pos)
+					if pos == token.NoPos && os.Getenv("GOSYM_DEBUG") != "" {
+						st := string(debug.Stack())
+						if len(st) > 1500 {
+							st = st[:1500]
+						}
+						where += " " + st
+					}
+					c.notes = append(c.notes, "feasibility unknown at "+where)
 				}
 			}
 		}
